@@ -83,6 +83,53 @@ def child_path(fn: ast.FunctionDef, e: ast.expr, depth: int = 0) -> Optional[str
     return None
 
 
+ABSORBING = {"all": False, "exists": True}
+
+
+def check_macro_extent(repo: Repo, run: Run, rule: str, names: Optional[List[str]] = None) -> int:
+    """Sibling agreement on evaluation extent (shared with C09): the interpreter's macro branches fold over every
+    element; a compiled helper that leaves its loop early skips elements whose body would be an error.  For `all`
+    and `exists` an exit on the absorbing value (false / true) is what the fold computes anyway and is accepted;
+    map, filter and exists_one have no absorbing element: any early exit changes an error into a value."""
+    ev = repo.mod("evaluation")
+    if names is None:
+        names = sorted(n.name[6:] for n in ev.tree.body if isinstance(n, ast.FunctionDef) and n.name.startswith("macro_"))
+    count = 0
+    for name in names:
+        q = f"macro_{name}"
+        if not (ev.has(q) and isinstance(ev.top(q), ast.FunctionDef)):
+            continue
+        fnm = ev.func(q)
+        early: List[str] = []
+        unknown: List[str] = []
+        for loop in [n for n in ast.walk(fnm) if isinstance(n, (ast.For, ast.While))]:
+            for n in ast.walk(loop):
+                if isinstance(n, ast.Break):
+                    (unknown if name in ABSORBING else early).append("break")
+                if isinstance(n, ast.Return):
+                    v = strip_cast(n.value) if n.value is not None else None
+                    inner = v.args[0] if isinstance(v, ast.Call) and len(v.args) == 1 and (dotted(v.func) or "").endswith("BoolType") else v
+                    if name in ABSORBING and isinstance(inner, ast.Constant) and inner.value is ABSORBING[name]:
+                        continue  # the absorbing value: later elements cannot change the result
+                    (unknown if name in ABSORBING and not isinstance(inner, ast.Constant) else early).append("return")
+        for c in ast.walk(fnm):
+            if isinstance(c, ast.Call) and dotted(c.func) in ("next", "any", "all", "itertools.takewhile", "itertools.islice"):
+                d = dotted(c.func)
+                if name in ABSORBING and d in ("any", "all"):
+                    unknown.append(d)  # any()/all() also swallow error *values* by truthiness: not decided here
+                else:
+                    early.append(d)
+        count += 1
+        if not early and unknown:
+            run.inconclusive(rule, f"{q}|evaluates-every-element", f"leaves the loop early ({', '.join(sorted(set(unknown)))}); whether only on the absorbing value was not decided")
+            continue
+        run.ob(rule, f"{q}|evaluates-every-element", not early,
+               f"{q} " + ("evaluates the body for every element (or stops only on the absorbing value), as the interpreter does" if not early else
+                          f"can stop before the last element ({', '.join(sorted(set(early)))}): an element whose body is an error is skipped, so the interpreter reports an error where the compiled runner returns a value"),
+               ev.loc(fnm))
+    return count
+
+
 def check(repo: Repo, run: Run) -> None:
     run.explanation = (
         "S1: both engines handle every grammar rule (a method per rule, or the parent's dispatch on .data) and the same set of "
@@ -96,6 +143,10 @@ def check(repo: Repo, run: Run) -> None:
         "only inside string literals whose terminal excludes quote/backslash/newline, never in code position. "
         "NOT decided: equality of the computed values (needs execution)."
     )
+    # S4: the compiled runner evaluates every call on per-call state, as the interpreter does: a Transpiler /
+    # CompiledRunner that keeps bindings, an activation or a namespace from an earlier evaluate() answers with another
+    # call's data where the interpreter does not (instances shared with C05's storage-channel inventory)
+    run.borrow(repo, "C05", "C03.S4", lambda o: o["rule"].startswith("C05.H") and any(k in o["key"] for k in ("Transpiler", "CompiledRunner", "Phase1", "Phase2")), 3)
     ev = repo.mod("evaluation")
     g = grammar(repo)
     E = class_methods(ev.cls("Evaluator"))
@@ -143,26 +194,7 @@ def check(repo: Repo, run: Run) -> None:
         run.ob("C03.S1", f"macro_{name}", bool(tm) and has and arity_ok,
                f"the transpiler emits celpy.evaluation.macro_{name}(activation, bind, body, source): " + ("defined with 4 parameters" if has and arity_ok else "no such function in celpy.evaluation - the macro works interpreted and fails compiled"),
                str(ev.path))
-    # S3: sibling agreement on evaluation extent: the interpreter's macro branches fold over every element
-    # (reduce / sum / map / filter over the whole list); a compiled helper that leaves its loop early skips
-    # elements whose predicate would be an error
-    for name in sorted(mt):
-        q = f"macro_{name}"
-        if not (ev.has(q) and isinstance(ev.top(q), ast.FunctionDef)):
-            continue
-        fnm = ev.func(q)
-        early = []
-        for loop in [n for n in ast.walk(fnm) if isinstance(n, (ast.For, ast.While))]:
-            for n in ast.walk(loop):
-                if isinstance(n, (ast.Break, ast.Return)):
-                    early.append(type(n).__name__.lower())
-        for c in ast.walk(fnm):
-            if isinstance(c, ast.Call) and dotted(c.func) in ("next", "any", "all", "itertools.takewhile", "itertools.islice"):
-                early.append(dotted(c.func))
-        run.ob("C03.S3", f"{q}|evaluates-every-element", not early,
-               f"{q} " + ("evaluates the body for every element, as the interpreter does" if not early else
-                          f"can stop before the last element ({', '.join(sorted(set(early)))}): an element whose body is an error is skipped, so the interpreter reports an error where the compiled runner returns a value"),
-               ev.loc(fnm))
+    check_macro_extent(repo, run, "C03.S3", sorted(mt))
     for fname, engine in (("ident_arg", P1), ("primary", E)):
         s = ast.unparse(engine[fname])
         run.shape("C03.S1", f"{'Phase1Transpiler' if engine is P1 else 'Evaluator'}.{fname}|has,dyn", "'has'" in s and "'dyn'" in s, "has() and dyn() are special-cased", ev.loc(engine[fname]))
@@ -202,6 +234,38 @@ def check(repo: Repo, run: Run) -> None:
     aliases = [n.targets[0].id for n in ev.cls("Phase2Transpiler").body if isinstance(n, ast.Assign) and isinstance(n.value, ast.Name) and n.value.id == "expr" and isinstance(n.targets[0], ast.Name)]
     deferred = {m for m, ts in tmpls.items() if any(t.deferred for t in ts)}
     run.ob("C03.T1", "Phase2Transpiler|deferred rules", deferred <= set(aliases) | {"expr"}, f"rules with deferred templates {sorted(deferred)} are all collected by Phase 2 ({sorted(set(aliases) | {'expr'})})", str(ev.path))
+    # T3: Phase 2 decides what the top expression *is* by matching its transpiled text; the match must account
+    # for the whole text, or an expression that merely starts with / contains a deferred reference
+    # (`ex_3(activation).get(...)`, `f(ex_3(activation))`) is taken for the reference and the rest is dropped.
+    from ..core import regexshape
+    from ..core.model import class_methods_n
+
+    p2cls = ev.cls("Phase2Transpiler")
+    nm = 0
+    for mname, fn in sorted(class_methods_n(p2cls).items()):
+        for call in [c for c in ast.walk(fn) if isinstance(c, ast.Call)]:
+            got = regexshape.pattern_of_call(ev, call, p2cls, fn)
+            f = call.func
+            looks = isinstance(f, ast.Attribute) and f.attr in ("match", "fullmatch", "search") and any(".transpiled" in ast.unparse(a) for a in call.args)
+            if got is None:
+                if looks:
+                    run.inconclusive("C03.T3", f"Phase2Transpiler.{mname}|text-recognition", f"the pattern of `{ast.unparse(call)[:60]}` is not a constant")
+                continue
+            method, pat, subject = got
+            if ".transpiled" not in ast.unparse(subject):
+                continue
+            nm += 1
+            try:
+                whole = regexshape.whole_subject(method, pat)
+            except re.error as ex:
+                run.inconclusive("C03.T3", f"Phase2Transpiler.{mname}|text-recognition", f"pattern {pat!r}: {ex}")
+                continue
+            run.ob("C03.T3", f"Phase2Transpiler.{mname}|text-recognition", whole,
+                   f"Phase 2 recognises a transpiled text with {pat!r}.{method}(): " + ("only the whole text matches" if whole else
+                   "a text that only begins with / contains the pattern matches too, so the remainder of the compiled expression (e.g. a trailing member access) is discarded and the compiled program computes something else than the interpreter"),
+                   ev.loc(call))
+    if nm == 0:
+        run.inconclusive("C03.T3", "Phase2Transpiler|text-recognition", "no regular-expression test of a transpiled text found in Phase2Transpiler (the way the top-level deferred reference is recognised changed)")
     # X2 -----------------------------------------------------------------
     caught, table, rfn = effrules.result_handler(repo)
     info = effrules.interp_analysis(repo)
